@@ -279,7 +279,7 @@ Proof. reflexivity. Qed.
 Lemma repo_lengths :
   p_publen repo_params = 256%nat /\ p_keylen repo_params = 256%nat /\ p_privlen repo_params = 32%nat /\
   p_cmplen repo_params = 256%nat /\ p_modlen repo_params = 256%nat /\ p_generator repo_params = 2.
-Proof. repeat split; vm_compute; reflexivity. Qed.
+Proof. split; [|split; [|split; [|split; [|split]]]]; vm_compute; reflexivity. Qed.
 
 (* M1 for the repository's constants *)
 Theorem blinded_modexp_correct (r0 : list N) (a : Z) (priv blinding : list N) :
@@ -420,11 +420,14 @@ Qed.
 Example blinded_modexp_instance :
   let priv := be_encode 32 5 in let bl := be_encode 32 7 in
   length (repeat 170%N 256) = 256%nat /\ bytes_ok priv /\ length priv = 32%nat /\ bytes_ok bl.
-Proof. repeat split; try apply be_encode_bytes_ok; try apply be_encode_length. Qed.
+Proof.
+  intros priv bl. split; [apply repeat_length|]. split; [apply be_encode_bytes_ok|].
+  split; [apply be_encode_length|apply be_encode_bytes_ok].
+Qed.
 
 Example sanitycheck_instances :
   dh_sanitycheck repo_params (be_encode 256 (rfc3526_group14 - 1)) = 0 /\
   dh_sanitycheck repo_params (be_encode 256 rfc3526_group14) = -1 /\
   dh_sanitycheck repo_params (be_encode 256 (rfc3526_group14 + 1)) = -1 /\
   dh_sanitycheck repo_params (be_encode 256 0) = 0.
-Proof. repeat split; vm_compute; reflexivity. Qed.
+Proof. split; [|split; [|split]]; vm_compute; reflexivity. Qed.
